@@ -18,6 +18,19 @@ pub open spec fn preimage_available(tx: Transaction, i: int, f: SigHash, cs_offs
         off <= lock.len() && !(base(f) == 3 && i >= tx.outputs@.len()) })
 }
 // ---- CHECKMULTISIG ----
+// a signature operand CHECKMULTISIG can process without an error: non-empty, strict DER before the flag byte, a standard
+// flag whose preimage is available
+pub open spec fn ms_sig_ok(tx: Transaction, i: int, cs_offset: int, sg: Seq<u8>) -> bool {
+    sg.len() > 0 && der_dec(sg.drop_last()) is Some
+    && exists|f: SigHash| #[trigger] flag_byte(f) == sg.last() && (forkid6(f) || legacy6(f)) && preimage_available(tx, i, f, cs_offset)
+}
+pub open spec fn ms_operands_ok(tx: Transaction, i: int, cs_offset: int, st: Seq<Vec<u8>>) -> bool {
+    let l = st.len() as int;
+    l >= 1 && st[l - 1]@.len() <= 4 && ({ let n = scriptnum(st[l - 1]@);
+        1 <= n && n + 2 <= l && st[l - 2 - n]@.len() <= 4 && ({ let m = scriptnum(st[l - 2 - n]@);
+            1 <= m <= n && n + m + 3 <= l && ({ let keys = st.subrange(l - 1 - n, l - 1); let sigs = st.subrange(l - 2 - n - m, l - 2 - n);
+                (forall|j: int| 0 <= j < n ==> sec1_valid(#[trigger] keys[j]@)) && (forall|k: int| 0 <= k < m ==> ms_sig_ok(tx, i, cs_offset, #[trigger] sigs[k]@)) }) }) })
+}
 pub open spec fn flag_byte(f: SigHash) -> u8 { f as u8 }
 pub open spec fn flag_of(b: u8) -> SigHash { choose|f: SigHash| #[trigger] flag_byte(f) == b }
 pub open spec fn std_flag(b: u8) -> bool { exists|f: SigHash| #[trigger] flag_byte(f) == b && (forkid6(f) || legacy6(f)) }
